@@ -1,10 +1,15 @@
 (* C10 — property theorems (statements only; proofs live in Acme.C10.Proofs / BitsProofs).
    Model: Acme.C10.{DbcDoc,BusModel,Import,Bits}.  `import : doc -> result bus`.
-   Partial: import_signal_faithful_partial covers messages without multiplexor switch and, for
-   signals with a value table, the kind only; the full statement is
-   Acme.C10.Proofs.import_signal_faithful_full_statement. *)
+   Signal faithfulness as ONE statement: import_faithful_full (every signal of every message, multiplexed or
+   not, at every nesting depth: name, absolute position, size, comment, kind, enum values of the last VAL_ line
+   or the standard type data) for documents whose multiplexor switches have a non-negative size (the parser's
+   sizes are unsigned; the model's documents carry integers).  It supersedes
+   Acme.C10.Proofs.import_signal_faithful_full_statement, which lacked that hypothesis (for a negative switch
+   size the model accepts the document and the selector width differs from the size) and described the last
+   VAL_ line by a mis-stated list equation; the clause theorems below (import_signal_faithful_partial: messages
+   without switch, ...) are kept. *)
 From Coq Require Import String ZArith List.
-From Acme.C10 Require Import DbcDoc BusModel Import Bits BitsProofs Proofs ProofsEnum ProofsLayout ProofsFaithful ProofsMux ProofsExtMux ProofsDecode ProofsIds ProofsEnumMux ProofsAttrs ProofsAttrsAll ProofsTraverse ProofsAttrsSig ProofsExtAbs ProofsGroups ProofsDecodeMux ProofsAttrsExact ProofsSigMap ProofsAttrsSigExact.
+From Acme.C10 Require Import DbcDoc BusModel Import Bits BitsProofs Proofs ProofsEnum ProofsLayout ProofsFaithful ProofsMux ProofsExtMux ProofsDecode ProofsIds ProofsEnumMux ProofsAttrs ProofsAttrsAll ProofsTraverse ProofsAttrsSig ProofsExtAbs ProofsGroups ProofsDecodeMux ProofsAttrsExact ProofsSigMap ProofsAttrsSigExact ProofsFull.
 Import ListNotations.
 Open Scope Z_scope.
 
@@ -92,6 +97,17 @@ Theorem import_layout_valid : forall d b, import d = Ok b ->
   Forall (fun m => tops_valid (b_enums b) (m_size m * 8) (m_signals m)) (b_messages b).
 Proof. exact ProofsLayout.import_layout_valid. Qed.
 Print Assumptions import_layout_valid.
+
+(* signal faithfulness, the whole statement: every signal `ds` of every message of the file is in the imported
+   message - by name - at the file's absolute position, with the file's size (selector width for a switch) and its
+   CM_ comment; a switch is a multiplexer; with a VAL_ line: an enum signal whose enum in the final table holds
+   the values of the LAST such line (sorted by index); without: a standard signal with the file's sign, factor,
+   offset, minimum, maximum and unit.  `se` is the importer's map of signals with a VAL_ line *)
+Theorem import_faithful_full : forall d b, switch_sizes_ok d -> import d = Ok b ->
+  exists se, (forall k, (exists e, lookup key_eqb k se = Some e) <-> has_valenc d k) /\
+    Forall2 (fun dm m => forall ds, In ds (dm_signals dm) -> faithful_sig d b se dm m ds) (d_messages d) (b_messages b).
+Proof. exact ProofsFull.import_faithful_full. Qed.
+Print Assumptions import_faithful_full.
 
 (* messages with exactly one multiplexor switch (simple multiplexing, SG_MUL_VAL_ entries allowed):
    the switch is a top-level multiplexer at its position with 2^size groups; every other signal of
